@@ -9,7 +9,7 @@ Open Scope Z_scope.
 
 Definition w_cfg (f24 : bool) : config :=
   {| c_version := 0; c_zerofee := false; c_gas_price := 1; c_chain := 7%N; c_name_price := 0; c_stake_min := 0;
-     c_stake_delay := 0%N; c_fix_f24 := f24; c_fix_f18 := true |}.
+     c_stake_delay := 0%N; c_vote_delay := 0%N; c_fix_f24 := f24; c_fix_f18 := true |}.
 Definition w_tx k f t n a pl sg nm d : tx :=
   {| t_kind := k; t_from := f; t_to := t; t_nonce := n; t_amount := a; t_plen := pl; t_gaslimit := 0; t_chain := 7%N;
      t_hash := 5%N; t_signer := sg; t_name := nm; t_dest := d; t_fddeny := false |}.
@@ -21,7 +21,7 @@ Definition w_vm (_ : tx) (_ _ : astate) (_ : lstate) : vm_result := VmOk [] [] 0
 Definition w_state (dest : N) : lstate :=
   {| accts := list_to_map [(10%N, {| bal := 5000000000000000000; nonce := 0%N; code := false |});
                            (100%N, {| bal := 2000000000000000000; nonce := 0%N; code := true |})];
-     stk := ∅; stk_total := 0; names := list_to_map [(200%N, (10%N, dest))]; names0 := list_to_map [(200%N, (10%N, dest))];
+     stk := ∅; stk_total := 0; voted := ∅; names := list_to_map [(200%N, (10%N, dest))]; names0 := list_to_map [(200%N, (10%N, dest))];
      cstor := list_to_map [(100%N, list_to_map [(0%N, 10)])]; bp_reward := 0; receipts := [] |}.
 
 (** F24: fee delegation whose sender (the name 200) resolves to the called contract itself.  On the
@@ -52,7 +52,7 @@ Definition w_t : tx := w_tx KTransfer 200%N 11%N 1%N 1 0 10%N 0%N 0%N.
 Definition w_upd : tx := w_tx KNameUpdate 10%N 0%N 2%N 0 20 10%N 200%N 100%N.
 Definition w_cfg0 : config :=
   {| c_version := 0; c_zerofee := true; c_gas_price := 1; c_chain := 7%N; c_name_price := 0; c_stake_min := 0;
-     c_stake_delay := 0%N; c_fix_f24 := true; c_fix_f18 := true |}.
+     c_stake_delay := 0%N; c_vote_delay := 0%N; c_fix_f24 := true; c_fix_f18 := true |}.
 Definition w_chain : list (N * N * list tx) := [(1%N, 30%N, [w_t; w_upd]); (2%N, 30%N, [w_t])].
 Theorem no_tx_twice_names_refuted :
   exists is_name cid_of tx_hash vm sig_ok cfg vr bl s s',
